@@ -845,8 +845,11 @@ class Aspire:
             config_dict["xp"] = resolve_xp(config_dict["xp"])
         config_dict["log_likelihood"] = log_likelihood
         config_dict["log_prior"] = log_prior
+        # Flow keyword arguments were passed to the constructor as **kwargs
+        flow_kwargs = config_dict.pop("flow_kwargs", None) or {}
+        flow_kwargs.pop("parameters", None)
 
-        aspire = Aspire(**config_dict)
+        aspire = Aspire(**config_dict, **flow_kwargs)
 
         with AspireFile(file_path, "r") as h5_file:
             if flow_path in h5_file:
